@@ -227,6 +227,7 @@ MC_FAMILIES = {  # cfg file, (quick depth, thorough depth)
     "timeout": ("MC_Timeout.cfg", (6, 9)), "did": ("MC_Did.cfg", (6, 8)), "super": ("MC_Super.cfg", (5, 7)), "reward": ("MC_Reward.cfg", (6, 7)), "auth": ("MC_Auth.cfg", (6, 7)),
     "sidauth": ("MC_SidAuth.cfg", (7, 10)),
     "sponsor": ("MC_Sponsor.cfg", (14, 16)),
+    "fault": ("MC_Fault.cfg", (6, 8)),
 }
 MC_FAMILY_CFG = {"accounts": 8, "dids": 2, "validators": 2, "balance": 10000000, "blockReward": 840}
 
@@ -238,6 +239,8 @@ def model_check_families(binary, workdir, tier):
         d = os.path.join(workdir, fam)
         stage_spec(d)
         gcfg = MC_CFG if fam in ("timeout", "sponsor") else MC_FAMILY_CFG   # the timeout family jumps over long spans: no block reward there
+        if fam == "fault":
+            gcfg = GEN_CFG                                     # a03 is a fishman
         if fam == "sidauth":
             gcfg = dict(MC_FAMILY_CFG, accounts=12)           # a09..a11 create and are bound to the sid DIDs
         rc, o, _ = run([binary, "genesis", "--cfg", json.dumps(gcfg), "--out", os.path.join(d, "genesis.json")])
